@@ -121,6 +121,18 @@ fn generate(a: &Args) -> i32 {
                         fails.push(serde_json::json!({"id": "C11-iterator-differs-from-batch", "what": "read iterator differs from the batch result although no document fails", "input": text, "type": ty.tokens(), "observed": iter, "expected": want_iter}));
                     }
                 }
+                // each document on its own, also after failing documents: when no document of the stream is of a kind that
+                // ends the iteration (syntax-level errors), item i is the result of document i parsed alone (value, or an
+                // error of the same kind)
+                if clean {
+                    let want: Vec<String> = seq.iter().zip(&per_doc).filter(|(k, _)| !is_nullish(**k))
+                        .map(|(_, r)| if r.starts_with("ok") { r.clone() } else { r.split(' ').take(2).collect::<Vec<_>>().join(" ") }).collect();
+                    let got: Vec<String> = iter.split(" ; ").skip(1)
+                        .map(|r| if r.starts_with("ok") { r.to_string() } else { r.split(' ').take(2).collect::<Vec<_>>().join(" ") }).collect();
+                    if want != got {
+                        fails.push(serde_json::json!({"id": "C11-document-not-on-its-own", "what": "an item of the read iterator differs from the result of that document parsed on its own", "input": text, "type": ty.tokens(), "options": cfg.tokens(true), "observed": iter, "expected": want.join(" ; ")}));
+                    }
+                }
                 // single-document entry point rejects a stream with a second (non-empty) document
                 let non_null: Vec<usize> = seq.iter().copied().filter(|k| KINDS[*k].0 != "empty").collect();
                 if non_null.len() >= 2 && single.starts_with("ok") {
